@@ -105,7 +105,6 @@ impl Pointee for Align64 {
     }
 }
 
-const DEBT_NONE: usize = 0b11;
 
 /// The laws for one value `k` of kind K. `counts()` reads the (strong, weak) counts of the target
 /// (through a probe that is itself part of the baseline); `unit` = what one live K adds to
@@ -124,7 +123,7 @@ fn laws<K: RefCnt + 'static>(k: K, other: K, ops: &[KOp], counts: &dyn Fn() -> (
     if empty != p0.is_null() {
         return Err(format!("as_ptr: empty value <-> null pointer violated (empty={}, ptr={:?})", empty, p0));
     }
-    if p0 as usize == DEBT_NONE {
+    if p0 as usize == arc_swap::verif::encodings().debt_none {
         return Err("as_ptr returned the reserved 'no debt' value".into());
     }
     let mut kept: Vec<*mut K::Base> = Vec::new();
